@@ -127,41 +127,60 @@ Proof.
     destruct (c_auth c); try discriminate. reflexivity.
 Qed.
 
-(* canonical presentation is accepted by both routers *)
-Lemma canonical_claimed c cr : canonical c cr = true -> claimed cr = c_id c.
+(* presenting the registered credentials the way each router reads them: a
+   public client by its bare client_id, a client with a secret by HTTP Basic
+   (whatever the form fields say next to the header) *)
+Definition presents (c : client) (cr : creds) : bool :=
+  match c_auth c, cr_basic cr with
+  | ANone, None => String.eqb (cr_id cr) (c_id c) && String.eqb (cr_secret cr) ""
+  | ABasic, Some (id, s) | APost, Some (id, s) => String.eqb id (c_id c) && String.eqb s (c_secret c)
+  | _, _ => false
+  end.
+
+Lemma canonical_presents c cr : canonical c cr = true -> presents c cr = true.
 Proof.
-  unfold canonical, claimed. destruct (c_auth c), (cr_basic cr) as [[i s]|]; try discriminate;
+  unfold canonical, presents. destruct (c_auth c), (cr_basic cr) as [[i s]|]; try discriminate;
+    intro H; try exact H; now apply andb_true_iff in H as [H _].
+Qed.
+
+(* the registered presentation is accepted by both routers *)
+Lemma presents_claimed c cr : presents c cr = true -> claimed cr = c_id c.
+Proof.
+  unfold presents, claimed. destruct (c_auth c), (cr_basic cr) as [[i s]|]; try discriminate;
     intro H; repeat (apply andb_true_iff in H as [H ?]); now apply String.eqb_eq.
 Qed.
 
-Lemma canonical_prov cl c cr :
-  find_client cl (claimed cr) = Some c -> canonical c cr = true -> client_ok c = true ->
+Lemma canonical_claimed c cr : canonical c cr = true -> claimed cr = c_id c.
+Proof. intro H. apply presents_claimed. now apply canonical_presents. Qed.
+
+Lemma presents_prov cl c cr :
+  find_client cl (claimed cr) = Some c -> presents c cr = true -> client_ok c = true ->
   exists a, prov_client cl cr = inl (c_id c, a) /\ prov_authenticated c a = true.
 Proof.
-  intros Hf Hc Hok. pose proof (canonical_claimed _ _ Hc) as Hcl. rewrite Hcl in Hf.
+  intros Hf Hc Hok. pose proof (presents_claimed _ _ Hc) as Hcl. rewrite Hcl in Hf.
   pose proof (client_ok_inv _ Hok) as Hid. pose proof (client_ok_secret _ Hok) as Hsec.
-  unfold canonical in Hc. unfold prov_client, secret_ok, prov_authenticated.
+  unfold presents in Hc. unfold prov_client, secret_ok, prov_authenticated.
   destruct (c_auth c), (cr_basic cr) as [[i s]|]; try discriminate.
-  - repeat (apply andb_true_iff in Hc as [Hc ?]). apply String.eqb_eq in Hc, H0. subst i s.
+  - apply andb_true_iff in Hc as [Hc H0]. apply String.eqb_eq in Hc, H0. subst i s.
     rewrite Hf, secret_matches_refl by (apply Hsec; discriminate). eauto.
-  - repeat (apply andb_true_iff in Hc as [Hc ?]). apply String.eqb_eq in Hc, H0. subst i s.
+  - apply andb_true_iff in Hc as [Hc H0]. apply String.eqb_eq in Hc, H0. subst i s.
     rewrite Hf, secret_matches_refl by (apply Hsec; discriminate). eauto.
   - apply andb_true_iff in Hc as [Hc ?]. apply String.eqb_eq in Hc. rewrite Hc.
     destruct (String.eqb_spec (c_id c) ""); [contradiction | eauto].
 Qed.
 
-Lemma canonical_legacy cl c cr :
-  find_client cl (claimed cr) = Some c -> canonical c cr = true -> client_ok c = true ->
+Lemma presents_legacy cl c cr :
+  find_client cl (claimed cr) = Some c -> presents c cr = true -> client_ok c = true ->
   legacy_client cl cr = inl c.
 Proof.
-  intros Hf Hc Hok. pose proof (canonical_claimed _ _ Hc) as Hcl.
+  intros Hf Hc Hok. pose proof (presents_claimed _ _ Hc) as Hcl.
   pose proof (client_ok_inv _ Hok) as Hid. pose proof (client_ok_secret _ Hok) as Hsec.
-  unfold legacy_client. unfold claimed in Hf, Hcl. unfold canonical in Hc.
+  unfold legacy_client. unfold claimed in Hf, Hcl. unfold presents in Hc.
   destruct (c_auth c) eqn:Ha, (cr_basic cr) as [[i s]|]; try discriminate.
-  - repeat (apply andb_true_iff in Hc as [Hc ?]). apply String.eqb_eq in H0. subst i s.
+  - apply andb_true_iff in Hc as [Hc H0]. apply String.eqb_eq in H0. subst i s.
     destruct (String.eqb_spec (c_id c) ""); [contradiction|]. rewrite Hf, Ha.
     now rewrite secret_matches_refl by (apply Hsec; discriminate).
-  - repeat (apply andb_true_iff in Hc as [Hc ?]). apply String.eqb_eq in H0. subst i s.
+  - apply andb_true_iff in Hc as [Hc H0]. apply String.eqb_eq in H0. subst i s.
     destruct (String.eqb_spec (c_id c) ""); [contradiction|]. rewrite Hf, Ha.
     now rewrite secret_matches_refl by (apply Hsec; discriminate).
   - rewrite Hcl. destruct (String.eqb_spec (c_id c) ""); [contradiction|].
@@ -228,8 +247,8 @@ Qed.
 
 (* a canonical poll by a registered device client: refusals come from the
    state check only, on both routers *)
-Lemma poll_canonical g cl st r cr dc now f host fwd c :
-  find_client cl (claimed cr) = Some c -> canonical c cr = true -> c_dev c = true ->
+Lemma poll_presents g cl st r cr dc now f host fwd c :
+  find_client cl (claimed cr) = Some c -> presents c cr = true -> c_dev c = true ->
   client_ok c = true -> dc <> "" ->
   poll g cl st r cr dc now f host fwd =
     match check_state st (c_id c) dc now f with
@@ -238,12 +257,22 @@ Lemma poll_canonical g cl st r cr dc now f host fwd c :
     end.
 Proof.
   intros Hf Hc Hdev Hok Hdc. unfold poll. destruct r.
-  - destruct (canonical_prov _ _ _ Hf Hc Hok) as [a [Hp Ha]]. rewrite Hp.
+  - destruct (presents_prov _ _ _ Hf Hc Hok) as [a [Hp Ha]]. rewrite Hp.
     destruct (check_state st (c_id c) dc now f); [|reflexivity].
-    rewrite <- (canonical_claimed _ _ Hc), Hf. now rewrite Ha.
-  - rewrite (canonical_legacy _ _ _ Hf Hc Hok). rewrite Hdev. cbn [negb].
+    rewrite <- (presents_claimed _ _ Hc), Hf. now rewrite Ha.
+  - rewrite (presents_legacy _ _ _ Hf Hc Hok). rewrite Hdev. cbn [negb].
     destruct (String.eqb_spec dc ""); [contradiction | reflexivity].
 Qed.
+
+Lemma poll_canonical g cl st r cr dc now f host fwd c :
+  find_client cl (claimed cr) = Some c -> canonical c cr = true -> c_dev c = true ->
+  client_ok c = true -> dc <> "" ->
+  poll g cl st r cr dc now f host fwd =
+    match check_state st (c_id c) dc now f with
+    | inr e => RErr e
+    | inl d => tokens_for (request_issuer g host fwd) c d
+    end.
+Proof. intros Hf Hc. apply poll_presents; [exact Hf | now apply canonical_presents]. Qed.
 
 (* ---- one step: the model's answer satisfies the property predicate and the
         ground truth it induces is the model's storage ------------------------ *)
@@ -365,13 +394,30 @@ Qed.
 
 (* the central theorem: on every well-formed input the model's answer
    satisfies the property predicate *)
-Theorem spec_model i : wf i = true -> spec i (model i) = true.
+Lemma spec_model_hist g cl ops : wf (IHist g cl ops) = true -> spec (IHist g cl ops) (model (IHist g cl ops)) = true.
 Proof.
-  destruct i as [g cl ops | cs n dash rnd]; cbn [wf model spec]; intro H.
-  - apply andb_true_iff in H as [H H3]. apply andb_true_iff in H as [H1 H2].
-    now apply check_run.
-  - destruct (new_user_code cs n dash rnd) as [s|] eqn:Hu; [|reflexivity].
-    rewrite (new_user_code_ok _ _ _ _ _ H Hu). apply orb_true_r.
+  cbn [wf model spec]; intro H.
+  apply andb_true_iff in H as [H H3]. apply andb_true_iff in H as [H1 H2].
+  now apply check_run.
+Qed.
+
+Lemma spec_model_usercode cs n dash rnd :
+  wf (IUserCode cs n dash rnd) = true -> spec (IUserCode cs n dash rnd) (model (IUserCode cs n dash rnd)) = true.
+Proof.
+  cbn [wf model spec]; intro H.
+  destruct (new_user_code cs n dash rnd) as [s|] eqn:Hu; [|reflexivity].
+  rewrite (new_user_code_ok _ _ _ _ _ H Hu). apply orb_true_r.
+Qed.
+
+(* the ground truth a history induces is the model's storage *)
+Lemma gt_run_final g cl : forallb client_ok cl = true -> prefix_free (g_charset g) = true ->
+  forall ops st, forallb op_ok ops = true -> gt_run st ops (run g cl st ops) = final g cl st ops.
+Proof.
+  intros Hcl Hpf. induction ops as [|o ops IH]; intros st Hops; [reflexivity|].
+  cbn [forallb] in Hops. apply andb_true_iff in Hops as [Ho Hops].
+  cbn [run final]. destruct (step_sound g cl st o Hcl Hpf Ho) as [_ H2].
+  destruct (step g cl st o) as [st' x]. cbn [fst snd] in *. cbn [gt_run].
+  rewrite H2. now apply IH.
 Qed.
 
 (* ======================================================================== *)
